@@ -393,7 +393,7 @@ def _c21_extra(tier, seed, native_run):
         'note': 'BOUNDED stand-in (not counted in obligations): real scipy optimizers driven by the real ScipyOptimizeDriver on strictly convex QPs; '
                 'oracle from the statement: success => every constrained element within its bounds, model left at the returned design, objective = true optimum (brute-force active-set enumeration)',
         'bound': 'optimizers {SLSQP, COBYLA, trust-constr} x 9 bound patterns (scalar / array with infinite entries in different positions / equals / two-sided) x indices {all, [0,2], [1]} '
-                 'x constraint scaling {none, scaler, ref/ref0} x design-variable scaling {none, scaler, ref/ref0} x linear flag (%s)' % ('every 11th combination' if tier == 'quick' else 'all combinations'),
+                 'x constraint scaling {none, scaler, ref/ref0} x design-variable scaling {none, scaler, ref/ref0} x linear flag (%s); histories: the same problem run again after the constraint matrix (a non-design input) changed' % ('every 11th combination' if tier == 'quick' else 'all combinations'),
         'evaluations': r['evaluations'], 'distinct_nontrivial': r['distinct_nontrivial'], 'exhaustive': tier != 'quick',
         'successes_checked': r['successes'], 'driver_raised_not_a_success_report': r.get('driver_raised'), 'driver_raised_examples': r.get('driver_raised_examples'),
         'failures': r['n_failures'], 'samples': r['samples']}
@@ -539,7 +539,7 @@ def _c04_extra(tier, seed, native_run):
     out['bounded_transfers'] = {
         'note': 'BOUNDED stand-in (not counted in obligations): real models; what the sink component SEES inside compute() (after run_model and in every block-Gauss-Seidel iteration) vs NumPy indexing of the source value + unit conversion',
         'bound': 'source shapes (5,), (2,3), (2,2,3) in m; chains of 1-3 index objects distributed over connect(src_indices) and promotes(src_indices) at 0-2 group levels; forms: negative ints in lists, +-step slices, '
-                 'tuples of slices/lists, Ellipsis, flat lists/slices; input units {None, m, cm, mm}%s; with and without a solver loop; auto-IVC with set_input_defaults(units) x 6; discrete object identity'
+                 'tuples of slices/lists, Ellipsis, flat lists/slices; input units {None, m, cm, mm}%s; with and without a solver loop; auto-IVC with set_input_defaults(units) x 6; discrete object identity; histories: one promotes() call for two inputs with sources of different size, re-setup after the source size changed (single level and chains)'
                  % ('' if tier != 'quick' else ' (quick: None and cm, half of the single-index cases)'),
         'evaluations': r['evaluations'], 'distinct_nontrivial': r['distinct_nontrivial'], 'exhaustive': True, 'failures': r['n_failures'],
         'failures_in_known_region_F5a': r.get('failures_in_known_region_F5a'), 'samples': r['samples']}
